@@ -1,10 +1,13 @@
 #!/venv/bin/python
-"""import_seed.py <PROP> <k> <needs...>: copy a confirmed seeded change from /tmp/seed_<PROP> into /verif/seeded/<PROP>-<k>/"""
+"""import_seed.py <PROP> <k | k:dstk> <needs...>: copy a confirmed seeded change from /tmp/seed_<PROP> into /verif/seeded/<PROP>-<k>/"""
 import json, os, shutil, subprocess, sys
 P, K = sys.argv[1], sys.argv[2]
+DK = K
+if ":" in K:   # "<source k>:<destination k>", e.g. 1:3 for the first change of the second round
+    K, DK = K.split(":")
 needs = " ".join(sys.argv[3:])
 src = f"/tmp/seed_{P}"
-dst = f"/verif/seeded/{P}-{K}"
+dst = f"/verif/seeded/{P}-{DK}"
 os.makedirs(dst, exist_ok=True)
 shutil.copy(f"{src}/patch{K}.diff", f"{dst}/patch.diff")
 shutil.copy(f"{src}/demo{K}.py", f"{dst}/demo.py")
@@ -12,7 +15,7 @@ if os.path.exists(f"{src}/notes{K}.md"):
     shutil.copy(f"{src}/notes{K}.md", f"{dst}/notes.md")
 base = subprocess.run(["git", "-C", f"/tmp/wt_{P}", "rev-parse", "--short", "HEAD"], capture_output=True, text=True).stdout.strip()
 meta = {
-    "id": f"{P}-{K}", "property": P, "author": "independent sub-agent given only the property text and a scratch worktree",
+    "id": f"{P}-{DK}", "property": P, "author": "independent sub-agent given only the property text and a scratch worktree",
     "base_commit": base, "needs_to_manifest": needs,
     "confirmed": {"how": "tools/confirm_seed.sh: in the scratch worktree at base_commit: git apply patch.diff; pinned suite (58 tests) passes; "
                          "PYTHONPATH=<worktree> python demo.py exits non-zero with the patch and 0 without it",
